@@ -9,8 +9,8 @@ from vlib.verdict import Case
 
 PROPERTY = 'C12'
 MANIFEST = {
- 'level_text': 'Lean 4 theorems, kernel-checked, about an executable model of the whole splitting pipeline. (1) byteTextWrap/splitBytes: for every chunk list and every size >= 4 the loop terminates normally, the lines concatenate to the munged text, none exceeds the size, none is empty. (2) FormatContext/FormatParser/ircutils.wrap: re-opening a context costs at most size() bytes; by a simulation proof, for EVERY text (colours, bold/underline/reverse, over-long words, multi-byte characters) whose wrapped lines do not begin with a digit or comma the contexts recomputed from the produced lines are those of the text, hence every line fits the requested length and the client-visible text (stripFormatting modelled as a state machine) of the lines concatenates to the visible text of the input; unconditionally for text without colour codes. (3) reply arithmetic: every message of a chunked (or single) reply, prefixed with the bot hostmask as the server relays it, is at most 512 bytes, for every target / nick-prefix / notice / private / to= combination, hostmask, nick and reply.mores.{maximum,instant} setting. (4) more protocol: first answer plus successive more commands deliver the chunks in order, each exactly once, each followed by the exact count of messages remaining, for every instant and sequence of batch sizes. The three places where the full statements are false on the pinned tree are kept visible with proved counter-examples and are listed known findings. Constants (512, suffix texts, FormatContext sizes, control characters, getInt base/limit, splitBytes tries, the stripColor regex) are re-extracted from /repo on every run; the model is tied to the code by a differential run (pure functions on tens of thousands of generated strings; real replies + more on a live bot through the synthetic plugin VtLong) that also evaluates the property statement on the implementation.',
- 'level_note': 'Trusted: Lean kernel (axioms propext/Classical.choice/Quot.sound only); harness/extractors/reply.py; the correspondence harness (generators bound what it sees); parameters of the model: textwrap.TextWrapper()._split_chunks (contract: chunks concatenate to the munged text, checked by the model driver on every case), repr() in safeArgument (the model takes the text after safeArgument), irc.isChannel (three booleans), \\d of the stripColor regex restricted to ASCII digits. Modelled: splitBytes, byteTextWrap, textwrap whitespace munging, FormatContext.start/end/size, FormatParser.parse/getInt/getColor, ircutils.wrap, stripFormatting, _makeReply (command, target, nick prefix, strip of \\x01, empty-message text), the length-checked branch of NestedCommandsIrcProxy.reply (allowedLength, truncation, suffix reserve, suffixes, instant, _mores), Misc.more for the requester. Not modelled: nested/not-final replies, action/error replies, more <nick> and several requesters sharing _mores, translations other than English, reply.mores off, an explicit reply.mores.length (512 is then the operator\'s business; correspondence still covers it). Four defects were repaired in /repo (fixes/C12-*.patch); three are recorded findings: cut of an over-long word inside a \\x03NN sequence, re-opened colour code running into the digits/comma that follow, reply.mores.maximum counted in characters.',
+ 'level_text': 'Lean 4 theorems, kernel-checked, about an executable model of the whole splitting pipeline. (1) byteTextWrap/splitBytes: for every chunk list and every size >= 4 the loop terminates normally, the lines concatenate to the munged text, none exceeds the size, none is empty. (2) FormatContext/FormatParser/ircutils.wrap: re-opening a context costs at most size() bytes; by a simulation proof, for EVERY text (colours, bold/underline/reverse, over-long words, multi-byte characters) whose wrapped lines do not begin with a digit or comma the contexts recomputed from the produced lines are those of the text, hence every line fits the requested length and the client-visible text (stripFormatting modelled as a state machine) of the lines concatenates to the visible text of the input; unconditionally for text without colour codes. (3) reply arithmetic: every message of a chunked (or single) reply, prefixed with the bot hostmask as the server relays it, is at most 512 bytes, for every target / nick-prefix / notice / private / to= combination, hostmask, nick and reply.mores.{maximum,instant} setting. (4) more protocol: first answer plus successive more commands deliver the chunks in order, each exactly once, each followed by the exact count of messages remaining, for every instant and sequence of batch sizes, and — non-interference theorem over arbitrary traces — whatever other requesters do meanwhile (their own replies, more, more <nick> on this very reply). The three places where the full statements are false on the pinned tree are kept visible with proved counter-examples and are listed known findings. Constants (512, suffix texts, FormatContext sizes, control characters, getInt base/limit, splitBytes tries, the stripColor regex) are re-extracted from /repo on every run; the model is tied to the code by a differential run (pure functions on tens of thousands of generated strings; real replies + more on a live bot through the synthetic plugin VtLong) that also evaluates the property statement on the implementation.',
+ 'level_note': 'Trusted: Lean kernel (axioms propext/Classical.choice/Quot.sound only); harness/extractors/reply.py; the correspondence harness (generators bound what it sees); parameters of the model: textwrap.TextWrapper()._split_chunks (contract: chunks concatenate to the munged text, checked by the model driver on every case), repr() in safeArgument (the model takes the text after safeArgument), irc.isChannel (three booleans), \\d of the stripColor regex restricted to ASCII digits. Modelled: splitBytes, byteTextWrap, textwrap whitespace munging, FormatContext.start/end/size, FormatParser.parse/getInt/getColor, ircutils.wrap, stripFormatting, _makeReply (command, target, nick prefix, strip of \\x01, empty-message text), the length-checked branch of NestedCommandsIrcProxy.reply (allowedLength, truncation, suffix reserve, suffixes, instant, _mores), Misc.more including more <nick> (the shared _mores dictionary as a heap of list objects keyed by rfc1459-lowered user@host and nick, the copy made by more <nick>, callers sharing a user@host). Not modelled: nested/not-final replies, action/error replies, reply(to=<known nick>) rebinding the hostmask key, translations other than English, reply.mores off, an explicit reply.mores.length (512 is then the operator\'s business; correspondence still covers it). Five defects were repaired in /repo (fixes/C12-*.patch); three are recorded findings: cut of an over-long word inside a \\x03NN sequence, re-opened colour code running into the digits/comma that follow, reply.mores.maximum counted in characters.',
  'technique': 'Lean 4 proof (induction over fuel/strings, loop invariants, simulation between two parser runs, finite tables by decide) + constant extraction + differential correspondence (pure + live bot)',
  'design_ref': 'DESIGN.md §6 C12',
 }
@@ -36,7 +36,7 @@ RULE = ('pure level: seeded strings over an alphabet of ASCII words, digits, com
         'tabs and other blanks, unbreakable words; ops munge/split/btw/parse/ctx/wrap with sizes 4..120. live level: a real '
         'irclib.Irc + Misc + synthetic VtLong replies with the stored text (1..60 chunks) to channel/private requesters, with '
         'withNickPrefix on/off, private=/notice=/to= keywords, bot hostmasks of 20..90 bytes, reply.mores.length 0 or 45..200, '
-        'maximum 1..60, instant 1..4, Misc.mores 1..3, followed by more until exhausted. Non-trivial: the case took at least one '
+        'maximum 1..60, instant 1..4, Misc.mores 1..3, followed by more until exhausted; in 45 % of the cases a second caller (other user@host) issues more <A> / more at random points and a third caller shares A\'s user@host; a targeted stream of single unbreakable multi-byte words long enough to be truncated, with the bot hostmask length swept over every residue of the character size. Non-trivial: the case took at least one '
         'non-default branch (split word, re-opened context, colour parse, truncation, >1 chunk, …); distinct = distinct input.')
 
 F_CUT = 'C12-cut-inside-colour-code'
